@@ -1,9 +1,12 @@
-// fdcount PID: number of open descriptors of PID and number of its zombie children: "fds=<n> zombies=<m>"
-fn main() {
-    let pid = std::env::args().nth(1).unwrap_or_else(|| "self".into());
+// fdcount PID [--settle]: number of open descriptors of PID and number of its zombie children:
+// "fds=<n> zombies=<m> children=<k>".  With --settle the sample is repeated (10 ms apart, at most
+// ~1.5 s) until three consecutive samples agree, so that work the shell finishes asynchronously
+// (process-substitution tasks, reaping) is not mistaken for a leak.
+fn sample(pid: &str) -> (usize, usize, usize) {
     let fds = std::fs::read_dir(format!("/proc/{pid}/fd")).map(|d| d.count()).unwrap_or(0);
     let mut zombies = 0;
     let mut children = 0;
+    let me = std::process::id().to_string();
     if let Ok(rd) = std::fs::read_dir("/proc") {
         for e in rd.flatten() {
             let name = e.file_name().to_string_lossy().into_owned();
@@ -16,7 +19,7 @@ fn main() {
                     let rest: Vec<&str> = stat[r + 1..].split_whitespace().collect();
                     if rest.len() > 2 && rest[1] == pid {
                         // do not count ourselves
-                        if name == std::process::id().to_string() {
+                        if name == me {
                             continue;
                         }
                         children += 1;
@@ -28,5 +31,30 @@ fn main() {
             }
         }
     }
-    println!("fds={fds} zombies={zombies} children={children}");
+    (fds, zombies, children)
+}
+
+fn main() {
+    let args: Vec<String> = std::env::args().collect();
+    let pid = args.get(1).cloned().unwrap_or_else(|| "self".into());
+    let settle = args.iter().any(|a| a == "--settle");
+    let mut cur = sample(&pid);
+    if settle {
+        let mut same = 0;
+        for _ in 0..150 {
+            std::thread::sleep(std::time::Duration::from_millis(10));
+            let n = sample(&pid);
+            if n == cur && n.2 == n.1 {
+                // stable, and no child still running
+                same += 1;
+                if same >= 2 {
+                    break;
+                }
+            } else {
+                same = 0;
+                cur = n;
+            }
+        }
+    }
+    println!("fds={} zombies={} children={}", cur.0, cur.1, cur.2);
 }
